@@ -37,7 +37,7 @@ def floors(tier):
     return {
         "evals": {"rfats": 2000, "extractSubwav": 300, "split": 150, "generator": 1000, "keepdelete": 1000},
         "classes": {"C17:keep": 300, "C17:delete": 300, "C17:with-replacement": 300, "C17:touching": 100, "C17:at-edges": 100, "C17:off-grid": 300,
-                    "C17:both-lists-rejected": 50, "C17:beyond-duration-rejected": 50, "C17:split:empty-secondary-tier": 30,
+                    "C17:both-lists-rejected": 50, "C17:beyond-duration-rejected": 50, "C17:intervals-as-one-shot-iterable": 30, "C17:extract-in-place": 20, "C17:split:empty-secondary-tier": 30,
                     "C17:split:tg-true": 30, "C17:split:tg-tiername": 30, "C17:split:noPartial": 30, "C17:empty-delete-list": 30,
                     "C17:reused-handle": 200, "C17:unsorted-list": 50, "C17:split:nameStyle:None": 10, "C17:split:nameStyle:append": 10, "C17:split:nameStyle:append_no_i": 10, "C17:split:nameStyle:label": 10},
     }
@@ -78,7 +78,25 @@ def _rf_pre(ctx):
         return SKIP
     if p.nchannels != 1 or p.sampwidth not in (1, 2, 4):
         return SKIP
+    try:
+        keep, dele = _listed(keep), _listed(dele)
+    except LookupError:
+        REC.skip("rfats", "one-shot-iterable-of-unknown-content")
+        return SKIP
     return (p, raw, [tuple(x)[:2] for x in keep] if keep is not None else None, [tuple(x)[:2] for x in dele] if dele is not None else None, rep)
+
+
+_iter_of = {}  # id(one-shot iterable handed to the library) -> the list it was made from (registered by the driver)
+
+
+def _listed(x):
+    """the intervals an argument stands for, WITHOUT consuming it: lists and tuples as they are, a one-shot iterable through the
+    driver's registry"""
+    if x is None or isinstance(x, (list, tuple)):
+        return x
+    if id(x) in _iter_of:
+        return _iter_of[id(x)]
+    raise LookupError
 
 
 def _rf_post(ctx):
@@ -246,7 +264,8 @@ def _ex_post(ctx):
     if i is None or j is None:
         REC.skip("extractSubwav", "half-sample-time")
         return
-    case = {"call": "extractSubwav", "width": width, "rate": rate, "samples": model, "s": s, "e": e}
+    case = {"call": "extractSubwav", "width": width, "rate": rate, "samples": model, "s": s, "e": e,
+            "in_place": os.path.abspath(str(out)) == os.path.abspath(str(ctx.arg(0, "fn")))}
     sig = ("extract", width, rate, W.on_grid(s, rate), W.on_grid(e, rate))
     mech = {"op": "extractSubwav", "width": width, "exc": type(ctx.exc).__name__ if ctx.exc else None}
     if ctx.exc is not None:
@@ -498,10 +517,17 @@ def workload(tier, rng, shard, nshards, work):
                 if lst != sorted(lst):
                     REC.cls("C17:unsorted-list")
             r = rng.random()
+            arg = lst
+            if k % 9 == 4:
+                # the intervals arrive as a one-shot iterable (zip(starts, ends), a generator), as they do when they are computed
+                arg = rng.choice([lambda: iter(lst), lambda: (x for x in lst), lambda: zip([a for a, _b in lst], [b for _a, b in lst])])()
+                _iter_of.clear()
+                _iter_of[id(arg)] = list(lst)
+                REC.cls("C17:intervals-as-one-shot-iterable")
             if r < 0.45:
-                call(audio.readFramesAtTimes, af, lst, None, rep)
+                call(audio.readFramesAtTimes, af, arg, None, rep)
             elif r < 0.9:
-                call(audio.readFramesAtTimes, af, None, lst, rep)
+                call(audio.readFramesAtTimes, af, None, arg, rep)
             elif r < 0.95:
                 call(audio.readFramesAtTimes, af, lst or [(0.0, n / rate / 2)], [(0.0, n / rate / 3)], rep)
             else:
@@ -516,6 +542,14 @@ def workload(tier, rng, shard, nshards, work):
             if k % 5 == 0:
                 s, e = sorted((rng.randrange(0, n + 1) / rate, rng.randrange(0, n + 1) / rate)) if on_grid else sorted((rng.uniform(0, n / rate), rng.uniform(0, n / rate)))
                 call(audio.extractSubwav, fn, os.path.join(str(work), "sub.wav"), s, e)
+                if k % 10 == 0 or n >= 5000:
+                    # trimming a recording in place: the output path is the source path
+                    import shutil
+
+                    inplace = os.path.join(str(work), "inplace.wav")
+                    shutil.copyfile(fn, inplace)
+                    call(audio.extractSubwav, inplace, inplace, s, e)
+                    REC.cls("C17:extract-in-place" + (":long-recording" if n >= 5000 else ""))
             if k % 3 == 0:
                 d = rng.choice([0.0, rng.randrange(0, 200) / rate, rng.uniform(0, 0.05), 1 / 3, 0.01])
                 call(gen_.generateSilence, d)
@@ -576,7 +610,7 @@ def replay(v, work):
             call(audio.readFramesAtTimes, wave.open(fn, "r"), [tuple(x) for x in c["keep"]] if c["keep"] is not None else None,
                  [tuple(x) for x in c["delete"]] if c["delete"] is not None else None, rep)
         elif c["call"] == "extractSubwav":
-            call(audio.extractSubwav, fn, os.path.join(str(work), "sub.wav"), c["s"], c["e"])
+            call(audio.extractSubwav, fn, fn if c.get("in_place") else os.path.join(str(work), "sub.wav"), c["s"], c["e"])
         elif c["call"] in ("generateSilence", "generateSineWave"):
             g = audio.AudioGenerator(c["width"], c["rate"])
             if c["call"] == "generateSilence":
